@@ -199,6 +199,66 @@ def layouts() -> List[Dict[str, Any]]:
     return out
 
 
+def check_emit_regeneration(repo: Repo, rep, rule: str = "R11.1") -> None:
+    mod = repo.module(EE)
+    emit = mod.classes["ExceptionsEmitter"].methods["emit"]
+    # ---------------------------------------------------------------- R11.1 emit uses the union for code AND names
+    sub1 = f"{mod.relpath}:ExceptionsEmitter.emit"
+    cfg = CFG(emit.node)
+    dom = cfg.dominators()
+    ucalls = [n for n in own_nodes(emit.node) if isinstance(n, ast.Assign) and isinstance(n.value, ast.Call) and dotted(n.value.func) == "self._update_registry"]
+    gcalls = [n for n in own_nodes(emit.node) if isinstance(n, ast.Assign) and isinstance(n.value, ast.Call) and dotted(n.value.func) == "self._generate_for_codes"]
+    rep.require(len(ucalls) == 1 and len(gcalls) == 1, f"R11.1: emit must call _update_registry and _generate_for_codes once each (found {len(ucalls)}/{len(gcalls)})")
+    if ucalls and gcalls:
+        allv = norm(ucalls[0].targets[0])
+        g = gcalls[0]
+        arg_ok = g.value.args and norm(g.value.args[0]) == allv
+        tgt = g.targets[0]
+        # the names written into the file and returned
+        writes = [c for c in calls_in(emit.node) if isinstance(c.func, ast.Attribute) and c.func.attr == "write" and c.args]
+        rets = [n for n in own_nodes(emit.node) if isinstance(n, ast.Return) and isinstance(n.value, ast.Tuple)]
+        ret_names = norm(rets[0].value.elts[1]) if rets and len(rets[0].value.elts) == 2 else "?"
+        prov = Provenance(emit)
+        code_vars = set()
+        if writes:
+            code_vars = {x.id for x in ast.walk(writes[0].args[0]) if isinstance(x, ast.Name)}
+            for nm in list(code_vars):
+                for d in prov.defs.get(nm, []):
+                    code_vars |= {x.id for x in ast.walk(d) if isinstance(x, ast.Name)}
+        tnames = [norm(t) for t in tgt.elts] if isinstance(tgt, ast.Tuple) else [norm(tgt)]
+        both = len(tnames) == 2 and tnames[0] in code_vars and tnames[1] == ret_names
+        if arg_ok and both:
+            rep.ok(rule, sub1 + " regenerates from the union", f"`{norm(g)[:80]}`: code and alias names both come from the union", emit.loc(g))
+        else:
+            rep.violation(rule, sub1 + " regenerates from the union", f"{emit.fq}|regen|{norm(g)}",
+                          f"`{norm(g)}`: the file content / the exported alias names are not both regenerated from the union of all clients' "
+                          f"codes (argument `{norm(g.value.args[0]) if g.value.args else ''}`, targets {tnames}, written vars need `{ret_names}` and code): "
+                          "other clients' exceptions disappear from the core's exports", emit.loc(g))
+        # guard of the registry branch: only (client name given) and (shared predicate)
+        un = [n for n in cfg.nodes if n.ast is ucalls[0]]
+        gs = [cfg.nodes[d] for d in dom[un[0].id] if cfg.nodes[d].kind == "test"] if un else []
+        extra = []
+        for x in gs:
+            conj = x.ast.values if isinstance(x.ast, ast.BoolOp) and isinstance(x.ast.op, ast.And) else [x.ast]
+            for cj in conj:
+                if "_is_shared_core" in norm(cj) or (isinstance(cj, ast.Name) and cj.id in emit.params):
+                    continue
+                extra.append(norm(cj))
+        if gs and not extra:
+            rep.ok(rule, sub1 + " registry guard", f"registry consulted under `{norm(gs[0].ast)}` only", emit.loc(gs[0].ast))
+        else:
+            rep.violation(rule, sub1 + " registry guard", f"{emit.fq}|guard|{extra}",
+                          f"the registry update is guarded by additional conditions {extra}", emit.loc(ucalls[0]))
+        # the registry file lives in the core directory the aliases are written to
+        rp = [n for n in own_nodes(emit.node) if isinstance(n, ast.Assign) and norm(n.targets[0]) == norm(ucalls[0].value.args[0])] if ucalls[0].value.args else []
+        fp = [n for n in own_nodes(emit.node) if isinstance(n, ast.Assign) and "exception_aliases.py" in norm(n.value)]
+        if rp and fp and prov.roots(rp[0].value) - {r for r in prov.roots(rp[0].value) if r[0] == "const"} == prov.roots(fp[0].value) - {r for r in prov.roots(fp[0].value) if r[0] == "const"}:
+            rep.ok(rule, sub1 + " registry location", "registry and exception_aliases.py are rooted at the same directory", emit.loc(rp[0]))
+        else:
+            rep.violation(rule, sub1 + " registry location", f"{emit.fq}|registry-location", "registry path and alias file are not rooted at the same directory", emit.loc())
+
+
+
 def run(repo: Repo, rep: Report, tier: str) -> None:
     mod = repo.module(EE)
     cls = mod.classes.get("ExceptionsEmitter")
@@ -278,60 +338,7 @@ def run(repo: Repo, rep: Report, tier: str) -> None:
             rep.violation("R11.1", sub0 + " always persisted", f"{upd.fq}|dump-bypassed|{cfg.describe_path(w)}",
                           f"a path returns without writing the registry ({cfg.describe_path(w)})", upd.loc(dumps[0]))
 
-    # ---------------------------------------------------------------- R11.1 emit uses the union for code AND names
-    sub1 = f"{mod.relpath}:ExceptionsEmitter.emit"
-    cfg = CFG(emit.node)
-    dom = cfg.dominators()
-    ucalls = [n for n in own_nodes(emit.node) if isinstance(n, ast.Assign) and isinstance(n.value, ast.Call) and dotted(n.value.func) == "self._update_registry"]
-    gcalls = [n for n in own_nodes(emit.node) if isinstance(n, ast.Assign) and isinstance(n.value, ast.Call) and dotted(n.value.func) == "self._generate_for_codes"]
-    rep.require(len(ucalls) == 1 and len(gcalls) == 1, f"R11.1: emit must call _update_registry and _generate_for_codes once each (found {len(ucalls)}/{len(gcalls)})")
-    if ucalls and gcalls:
-        allv = norm(ucalls[0].targets[0])
-        g = gcalls[0]
-        arg_ok = g.value.args and norm(g.value.args[0]) == allv
-        tgt = g.targets[0]
-        # the names written into the file and returned
-        writes = [c for c in calls_in(emit.node) if isinstance(c.func, ast.Attribute) and c.func.attr == "write" and c.args]
-        rets = [n for n in own_nodes(emit.node) if isinstance(n, ast.Return) and isinstance(n.value, ast.Tuple)]
-        ret_names = norm(rets[0].value.elts[1]) if rets and len(rets[0].value.elts) == 2 else "?"
-        prov = Provenance(emit)
-        code_vars = set()
-        if writes:
-            code_vars = {x.id for x in ast.walk(writes[0].args[0]) if isinstance(x, ast.Name)}
-            for nm in list(code_vars):
-                for d in prov.defs.get(nm, []):
-                    code_vars |= {x.id for x in ast.walk(d) if isinstance(x, ast.Name)}
-        tnames = [norm(t) for t in tgt.elts] if isinstance(tgt, ast.Tuple) else [norm(tgt)]
-        both = len(tnames) == 2 and tnames[0] in code_vars and tnames[1] == ret_names
-        if arg_ok and both:
-            rep.ok("R11.1", sub1 + " regenerates from the union", f"`{norm(g)[:80]}`: code and alias names both come from the union", emit.loc(g))
-        else:
-            rep.violation("R11.1", sub1 + " regenerates from the union", f"{emit.fq}|regen|{norm(g)}",
-                          f"`{norm(g)}`: the file content / the exported alias names are not both regenerated from the union of all clients' "
-                          f"codes (argument `{norm(g.value.args[0]) if g.value.args else ''}`, targets {tnames}, written vars need `{ret_names}` and code): "
-                          "other clients' exceptions disappear from the core's exports", emit.loc(g))
-        # guard of the registry branch: only (client name given) and (shared predicate)
-        un = [n for n in cfg.nodes if n.ast is ucalls[0]]
-        gs = [cfg.nodes[d] for d in dom[un[0].id] if cfg.nodes[d].kind == "test"] if un else []
-        extra = []
-        for x in gs:
-            conj = x.ast.values if isinstance(x.ast, ast.BoolOp) and isinstance(x.ast.op, ast.And) else [x.ast]
-            for cj in conj:
-                if "_is_shared_core" in norm(cj) or (isinstance(cj, ast.Name) and cj.id in emit.params):
-                    continue
-                extra.append(norm(cj))
-        if gs and not extra:
-            rep.ok("R11.1", sub1 + " registry guard", f"registry consulted under `{norm(gs[0].ast)}` only", emit.loc(gs[0].ast))
-        else:
-            rep.violation("R11.1", sub1 + " registry guard", f"{emit.fq}|guard|{extra}",
-                          f"the registry update is guarded by additional conditions {extra}", emit.loc(ucalls[0]))
-        # the registry file lives in the core directory the aliases are written to
-        rp = [n for n in own_nodes(emit.node) if isinstance(n, ast.Assign) and norm(n.targets[0]) == norm(ucalls[0].value.args[0])] if ucalls[0].value.args else []
-        fp = [n for n in own_nodes(emit.node) if isinstance(n, ast.Assign) and "exception_aliases.py" in norm(n.value)]
-        if rp and fp and prov.roots(rp[0].value) - {r for r in prov.roots(rp[0].value) if r[0] == "const"} == prov.roots(fp[0].value) - {r for r in prov.roots(fp[0].value) if r[0] == "const"}:
-            rep.ok("R11.1", sub1 + " registry location", "registry and exception_aliases.py are rooted at the same directory", emit.loc(rp[0]))
-        else:
-            rep.violation("R11.1", sub1 + " registry location", f"{emit.fq}|registry-location", "registry path and alias file are not rooted at the same directory", emit.loc())
+    check_emit_regeneration(repo, rep)
 
     # registry key at the call sites in the generator
     gen = repo.func("generator.client_generator:ClientGenerator.generate")
